@@ -53,10 +53,10 @@ theorem C19_own_filter (s : Cfg) (eff : Option (List Bytes)) (p : List Bytes) (i
 
 /-- **C19 (unset scalars are commented out).** -/
 theorem C19_unset_commented (pff : Option (List Bytes)) (indent : Nat) (info : OptInfo) (flags : Flags) (subs : List Decl)
-    (hs : info.ty ≠ .sec) (hf : info.ty ≠ .func) (hl : flags.list = false) :
+    (hs : info.ty ≠ .sec) (hf : info.ty ≠ .func) (hp : info.ty ≠ .ptr) (hl : flags.list = false) :
     printOpt pff indent (.mk info flags subs [] none) =
       indentBytes indent ++ [c_hash, c_sp] ++ printName info.name ++ [c_eq] ++ printValue (.mk info flags subs [] none) 0 ++ [c_nl] := by
-  simp [printOpt, hs, hf, hl, isUnset, Opt.vals, List.append_assoc]
+  simp [printOpt, hs, hf, hp, hl, isUnset, Opt.vals, List.append_assoc]
 
 /-- **C19 (print callback).** The callback's output replaces the built-in formatting of exactly
 that option's values, at every index. -/
@@ -68,10 +68,19 @@ theorem C19_callback (o : Opt) (i : Nat) :
 /-- **C19 (depth).** Every entry of a context printed at depth `d` starts with `2*d` blanks
 (shown for the scalar form; sections and lists use the same `indentBytes`). -/
 theorem C19_scalar_indent (pff : Option (List Bytes)) (indent : Nat) (info : OptInfo) (flags : Flags) (subs : List Decl) (vals : List Val)
-    (hs : info.ty ≠ .sec) (hf : info.ty ≠ .func) (hl : flags.list = false) :
+    (hs : info.ty ≠ .sec) (hf : info.ty ≠ .func) (hp : info.ty ≠ .ptr) (hl : flags.list = false) :
     ∃ rest, printOpt pff indent (.mk info flags subs vals none) = indentBytes indent ++ rest := by
   refine ⟨(if isUnset (.mk info flags subs vals none) then [c_hash, c_sp] else []) ++ printName info.name ++ [c_eq] ++
     printValue (.mk info flags subs vals none) 0 ++ [c_nl], ?_⟩
-  simp [printOpt, hs, hf, hl, List.append_assoc]
+  simp [printOpt, hs, hf, hp, hl, List.append_assoc]
+
+/-- **C19 / C05 (pointer options).** A pointer value has no text of its own: an option of pointer type
+without a print callback contributes nothing to the printed text — no `name=` that would take the
+next word of the file as its value when read back, and no annotation that would stick to the next
+option. -/
+theorem C19_pointer_without_callback (pff : Option (List Bytes)) (indent : Nat) (info : OptInfo) (flags : Flags) (subs : List Decl)
+    (vals : List Val) (comment : Option Bytes) (hp : info.ty = .ptr) (hc : info.printCb = false) :
+    printOpt pff indent (.mk info flags subs vals comment) = [] := by
+  simp [printOpt, hp, hc]
 
 end Confuse
